@@ -23,7 +23,8 @@ func genName(t *rapid.T, label string, allowMeta bool) string {
 	case k == 6:
 		return plainName.Draw(t, label) + " " + plainName.Draw(t, label+"2")
 	case k == 7:
-		return rapid.SampledFrom([]string{"données", "файл", "名前", "ü-ber.txt", "naïve name"}).Draw(t, label)
+		return rapid.SampledFrom([]string{"données", "файл", "名前", "ü-ber.txt", "naïve name",
+			"hash#tag", "#lead", "per%cent", "eq=ual", "co:lon", "it's", "dq\"q", "amp&and", "semi;colon", "tilde~", "at@sign", "comma,name", "plus+plus", "caret^", "excl!", "(paren)", "tab\tname", "pipe|name", "lt<gt>"}).Draw(t, label)
 	case k == 8 && allowMeta:
 		return rapid.SampledFrom([]string{"we[ird]", "a{b,c}", "star*", "q?mark", "[x]", "{solo}", "b]r[", "back\\slash"}).Draw(t, label)
 	default:
